@@ -33,6 +33,9 @@ struct Files {
     fakezip: String,
     realzip: String,
     nodltzip: String, // a zip archive without any DLT file
+    ft: String,       // a log with file transfers: idx 0 complete, idx 1 incomplete, idx 2 complete
+    ft_data: Vec<Vec<u8>>, // the transferred bytes per idx (empty: incomplete)
+    autosave_dir: String,
     missing: String,
     dir: String,
 }
@@ -46,6 +49,7 @@ struct CaseSpec {
     steps: Vec<Step>,
 }
 
+static SAVE_COUNTER: AtomicUsize = AtomicUsize::new(0);
 const TARGET_VERBS: [&str; 4] = ["stop", "stream_change_window", "stream_binary_search", "stream_search"];
 
 fn j(v: Value) -> String {
@@ -88,6 +92,9 @@ fn concretise(verb: &str, arg: &str, tk: Option<&str>, f: &Files, big: bool) -> 
             "ok_nocollect" => j(json!({"collect":false,"files":[file]})),
             "ok_onepass" => j(json!({"collect":"one_pass_streams","files":[file]})),
             "ok_plugins" => j(json!({"files":[file],"plugins":[{"name":"FileTransfer"}]})),
+            "ok_ft" => j(json!({"files":[f.ft],"plugins":[{"name":"FileTransfer","allowSave":true}]})),
+            "ok_ft_nosave" => j(json!({"files":[f.ft],"plugins":[{"name":"FileTransfer","allowSave":false}]})),
+            "ok_ft_auto" => j(json!({"files":[f.ft],"plugins":[{"name":"FileTransfer","autoSavePath":f.autosave_dir,"autoSaveGlob":"*.bin"}]})),
             "ok_plugins_dup" => j(json!({"files":[file],"plugins":[{"name":"Rewrite","rewrites":[]},{"name":"FileTransfer"},
                 {"name":"Rewrite","rewrites":[]},{"name":"FileTransfer","keepFLDA":true}]})),
             "ok_zip" => j(json!({"files":[f.realzip]})),
@@ -199,6 +206,15 @@ fn concretise(verb: &str, arg: &str, tk: Option<&str>, f: &Files, big: bool) -> 
             "noplugin" => j(json!({"cmd":"save","name":"nope"})),
             "ft_cmd" => j(json!({"cmd":"frob","name":"FileTransfer","params":{"a":1}})),
             "rw_cmd" => j(json!({"cmd":"frob","name":"Rewrite"})),
+            // FileTransfer `save`: every successful one writes to a fresh file under the work dir
+            "save_ok" | "save_ok2" | "save_incomplete" | "save_badidx" => {
+                let idx = match arg { "save_ok" => 0, "save_ok2" => 2, "save_incomplete" => 1, _ => 42 };
+                let n = SAVE_COUNTER.fetch_add(1, Ordering::SeqCst);
+                j(json!({"cmd":"save","name":"FileTransfer","params":{"saveAs":format!("{}/saved-{}-idx{}.bin", f.autosave_dir, n, idx)},"cmdCtx":{"save":{"idx":idx}}}))
+            }
+            "save_unwritable" => j(json!({"cmd":"save","name":"FileTransfer","params":{"saveAs":format!("{}/no_such_dir/x.bin", f.autosave_dir)},"cmdCtx":{"save":{"idx":0}}})),
+            "save_noparams" => j(json!({"cmd":"save","name":"FileTransfer","cmdCtx":{"save":{"idx":0}}})),
+            "save_noctx" => j(json!({"cmd":"save","name":"FileTransfer","params":{"saveAs":format!("{}/never.bin", f.autosave_dir)}})),
             _ => panic!("plugin arg {}", arg),
         }),
         "fs" => with("fs", match arg {
@@ -261,7 +277,25 @@ impl Out {
 struct Sent {
     verb: String,
     tk_id: u64,
-    nfile: u64,
+    text: String,
+}
+
+/// for `ok: plugin_cmd <bool>`: the flag, and for an executed FileTransfer save whether the file written equals the transferred bytes
+fn plugin_reply(reply: &str, cmd_text: &str, files: &Files) -> (String, String) {
+    let flag = reply.strip_prefix("ok: plugin_cmd ").map(|r| r.trim().to_string()).unwrap_or_default();
+    let mut saved = String::new();
+    if flag == "true" {
+        if let Some(v) = cmd_text.strip_prefix("plugin_cmd ").and_then(|t| serde_json::from_str::<Value>(t).ok()) {
+            let idx = v["cmdCtx"]["save"]["idx"].as_u64().unwrap_or(99) as usize;
+            let path = v["params"]["saveAs"].as_str().unwrap_or("");
+            let want = files.ft_data.get(idx).cloned().unwrap_or_default();
+            saved = match std::fs::read(path) {
+                Ok(b) if b == want && !want.is_empty() => "equal".into(),
+                _ => "differs".into(),
+            };
+        }
+    }
+    (flag, saved)
 }
 
 #[derive(PartialEq)]
@@ -273,13 +307,17 @@ enum Got {
 }
 
 /// record one received frame
-fn on_frame(fr: Frame, out: &mut Out, sess: &mut Session, pending: &mut std::collections::VecDeque<Sent>, file_msgs: &mut u64) -> Got {
+fn on_frame(fr: Frame, out: &mut Out, sess: &mut Session, pending: &mut std::collections::VecDeque<Sent>, file_msgs: &mut u64, files: &Files) -> Got {
     match fr {
         Frame::Text(t) => {
             let (pol, rverb, id, old) = classify_text(&t);
             match pol {
                 "ok" | "err" | "unknown" => {
-                    out.ev(json!({"ev":"reply","pol":pol,"rverb":rverb,"id":id,"old":old,"text":trunc(&t, 160)}));
+                    let (flag, saved) = match pending.front() {
+                        Some(s) if s.verb == "plugin_cmd" && pol == "ok" => plugin_reply(&t, &s.text, files),
+                        _ => (String::new(), String::new()),
+                    };
+                    out.ev(json!({"ev":"reply","pol":pol,"rverb":rverb,"id":id,"old":old,"flag":flag,"saved":saved,"text":trunc(&t, 160)}));
                     // concretisation bookkeeping only: which ids were announced to us
                     if let Some(s) = pending.pop_front() {
                         if pol == "ok" {
@@ -306,7 +344,7 @@ fn on_frame(fr: Frame, out: &mut Out, sess: &mut Session, pending: &mut std::col
                                 _ => {}
                             }
                         }
-                        let _ = s.nfile;
+                        let _ = &s.text;
                     }
                     Got::Reply
                 }
@@ -373,7 +411,7 @@ fn run_case(port: u16, case: usize, cs: &CaseSpec, files: &Files, rng: &mut Rng)
                 let want = if cs.big { files.n_big } else { files.n_small };
                 let t0 = std::time::Instant::now();
                 while file_msgs < want && t0.elapsed() < Duration::from_secs(20) {
-                    if on_frame(conn.recv(Duration::from_millis(200)), &mut out, &mut sess, &mut pending, &mut file_msgs) == Got::Closed {
+                    if on_frame(conn.recv(Duration::from_millis(200)), &mut out, &mut sess, &mut pending, &mut file_msgs, files) == Got::Closed {
                         dead = true;
                         break 'outer;
                     }
@@ -427,7 +465,7 @@ fn run_case(port: u16, case: usize, cs: &CaseSpec, files: &Files, rng: &mut Rng)
             // "nonnum" with an empty first parameter is sent as "<verb>  <second>" (two spaces)
             let text = concretise(&st.verb, &st.arg, tk_text.as_deref(), files, cs.big);
             out.ev(json!({"ev":"cmd","verb":st.verb,"arg":st.arg,"tk":tk,"id":id,"exp":st.exp,"text":trunc(&text, 200)}));
-            pending.push_back(Sent { verb: st.verb.clone(), tk_id: id, nfile: 0 });
+            pending.push_back(Sent { verb: st.verb.clone(), tk_id: id, text: text.clone() });
             if let Err(e) = conn.send(&text) {
                 out.ev(json!({"ev":"conn_closed","why":trunc(&format!("send failed: {}", e), 120)}));
                 dead = true;
@@ -437,7 +475,7 @@ fn run_case(port: u16, case: usize, cs: &CaseSpec, files: &Files, rng: &mut Rng)
         i = upto;
         // read until everything sent so far is answered
         while !pending.is_empty() {
-            match on_frame(conn.recv(reply_wait), &mut out, &mut sess, &mut pending, &mut file_msgs) {
+            match on_frame(conn.recv(reply_wait), &mut out, &mut sess, &mut pending, &mut file_msgs, files) {
                 Got::Closed => {
                     dead = true;
                     break 'outer;
@@ -502,18 +540,21 @@ fn parse_scn(v: &Value) -> Vec<Step> {
         if steps[i - 1].verb == "resume" {
             steps[i].pause_ms = 150;
         }
+        if steps[i - 1].verb == "open" && steps[i - 1].arg.starts_with("ok_ft") {
+            steps[i].pause_ms = 350; // let the file transfers be parsed (a save before that answers false - allowed)
+        }
     }
     steps
 }
 
-const OPEN_OK: [&str; 13] = ["ok_plugins_dup", "ok", "ok_sort", "ok_nocollect", "ok_onepass", "ok_plugins", "ok_zip", "zip_glob_all", "zip_glob_some", "zip_glob_none", "zip_nodlt", "zip_nodlt_glob", "fakezip"];
+const OPEN_OK: [&str; 16] = ["ok_ft", "ok_ft_nosave", "ok_ft_auto", "ok_plugins_dup", "ok", "ok_sort", "ok_nocollect", "ok_onepass", "ok_plugins", "ok_zip", "zip_glob_all", "zip_glob_some", "zip_glob_none", "zip_nodlt", "zip_nodlt_glob", "fakezip"];
 const OPEN_BAD: [&str; 13] = ["nonarchive_bang", "missingzip_bang", "noarg", "badjson", "nofiles", "emptyfiles", "fileswrongtype", "filesnonstring", "missingfile", "nodlt", "badcollect", "pluginswrongtype", "pluginnotobj"];
 const STREAM_OK: [&str; 6] = ["ok", "ok_filt", "ok_text", "ok_onepass", "ok_defaults", "ok_emptywin"];
 const STREAM_BAD: [&str; 6] = ["noarg", "badjson", "badwindow", "windowwrongtype", "filterswrongtype", "badfilter"];
 const CHANGE: [&str; 6] = ["ok", "ok_empty", "ok_garbage", "ok_beyond", "noarg", "nocomma"];
 const BSEARCH: [&str; 8] = ["time", "time_garbage", "index_found", "index_garbage", "index_missing", "badkey", "nokey", "noarg"];
 const SEARCH: [&str; 9] = ["ok", "ok_defaults", "ok_nomatch", "noarg", "badjson", "startwrongtype", "maxwrongtype", "filterswrongtype", "badfilter"];
-const PLUGIN: [&str; 8] = ["rw_cmd", "noarg", "badjson", "notobject", "nocmd", "noname", "noplugin", "ft_cmd"];
+const PLUGIN: [&str; 15] = ["save_ok", "save_ok2", "save_incomplete", "save_badidx", "save_unwritable", "save_noparams", "save_noctx", "rw_cmd", "noarg", "badjson", "notobject", "nocmd", "noname", "noplugin", "ft_cmd"];
 const FS: [&str; 16] = ["noarg", "badjson", "notobject", "nocmd", "nopath", "unknowncmd", "stat_ok", "readdir_ok", "stat_missing", "readdir_missing", "arch_nonexist", "arch_unsupported", "fakezip_readdir", "fakezip_stat", "zip_readdir", "zip_stat"];
 const UNKNOWN: [&str; 5] = ["frobnicate", "empty", "uppercase", "stream_window", "leadingspace"];
 const PLAIN: [&str; 2] = ["", "junk"];
@@ -549,6 +590,34 @@ fn random_onepass_history(rng: &mut Rng, len: usize) -> Vec<Step> {
         }
         v.push(s);
     }
+    v
+}
+
+/// sessions on the file-transfer log with the FileTransfer plugin: save commands of every kind between other commands
+fn random_ft_history(rng: &mut Rng, len: usize) -> Vec<Step> {
+    let mut v = vec![step("open", *rng.pick(&["ok_ft", "ok_ft", "ok_ft_auto", "ok_ft_nosave"]), "")];
+    if rng.chance(2, 3) {
+        v.push(step("sleep", "500", ""));
+    }
+    for _ in 0..len {
+        let r = rng.below(100);
+        let s = if r < 55 {
+            step("plugin_cmd", *rng.pick(&PLUGIN), "")
+        } else if r < 65 {
+            step(if rng.chance(1, 2) { "pause" } else { "resume" }, "", "")
+        } else if r < 80 {
+            step(if rng.chance(1, 2) { "stream" } else { "query" }, *rng.pick(&["ok", "ok_filt"]), "")
+        } else if r < 88 {
+            step("fs", "stat_ok", "")
+        } else if r < 94 {
+            step("stop", "", &format!("recent:{}", rng.below(2)))
+        } else {
+            v.push(step("close", "", ""));
+            step("open", *rng.pick(&["ok_ft", "ok_ft_auto", "ok"]), "")
+        };
+        v.push(s);
+    }
+    v.push(step("close", "", ""));
     v
 }
 
@@ -666,6 +735,10 @@ fn scripted() -> Vec<CaseSpec> {
         // plugins configured twice under the same name: one plugin_cmd = one reply (a stray frame would answer the next command)
         mk(false, "awaited", vec![step("open", "ok_plugins_dup", ""), step("plugin_cmd", "ft_cmd", ""), step("fs", "stat_ok", ""), step("plugin_cmd", "rw_cmd", ""), step("pause", "", ""), step("plugin_cmd", "ft_cmd", ""), step("plugin_cmd", "noplugin", ""), step("resume", "", ""), step("plugin_cmd", "rw_cmd", ""), step("close", "", ""), step("plugin_cmd", "ft_cmd", ""), step("open", "ok_plugins", ""), step("plugin_cmd", "rw_cmd", ""), step("plugin_cmd", "ft_cmd", ""), step("close", "", "")]),
         mk(false, "pipelined", vec![step("open", "ok_plugins_dup", ""), step("plugin_cmd", "ft_cmd", ""), step("plugin_cmd", "rw_cmd", ""), step("stream", "ok", ""), step("plugin_cmd", "ft_cmd", ""), step("stop", "", "none"), step("plugin_cmd", "rw_cmd", ""), step("close", "", "")]),
+        // FileTransfer `save`: failing variants before, the succeeding ones after the transfers are parsed, repeated, then the session goes on
+        mk(false, "awaited", vec![step("open", "ok_ft", ""), step("plugin_cmd", "save_badidx", ""), step("plugin_cmd", "save_noparams", ""), step("sleep", "700", ""), step("plugin_cmd", "save_ok", ""), step("pause", "", ""), step("plugin_cmd", "save_ok2", ""), step("plugin_cmd", "save_ok", ""), step("plugin_cmd", "save_incomplete", ""), step("plugin_cmd", "save_unwritable", ""), step("plugin_cmd", "save_noctx", ""), step("resume", "", ""), step("stream", "ok", ""), step("plugin_cmd", "save_ok2", ""), step("close", "", ""), step("plugin_cmd", "save_ok", ""), step("open", "ok_ft", ""), step("plugin_cmd", "save_ok", ""), step("close", "", "")]),
+        mk(false, "awaited", vec![step("open", "ok_ft_nosave", ""), step("sleep", "700", ""), step("plugin_cmd", "save_ok", ""), step("plugin_cmd", "save_badidx", ""), step("fs", "stat_ok", ""), step("close", "", ""), step("open", "ok_ft_auto", ""), step("sleep", "700", ""), step("plugin_cmd", "save_ok", ""), step("plugin_cmd", "save_ok2", ""), step("pause", "", ""), step("close", "", ""), step("open", "ok", ""), step("plugin_cmd", "save_ok", ""), step("close", "", "")]),
+        mk(false, "pipelined", vec![step("open", "ok_ft", ""), step("sleep", "700", ""), step("plugin_cmd", "save_ok", ""), step("plugin_cmd", "save_ok2", ""), step("pause", "", ""), step("plugin_cmd", "save_ok", ""), step("close", "", ""), step("open", "ok", ""), step("close", "", "")]),
         // close while parsing (big file, throttled parser), then a new open must succeed; also pipelined
         mk(true, "awaited", vec![step("open", "ok", ""), step("stream", "ok_filt", ""), step("close", "", ""), step("open", "ok", ""), step("stream", "ok", ""), step("close", "", ""), step("open", "ok_sort", ""), step("close", "", ""), step("open", "ok_zip", ""), step("close", "", ""), step("open", "ok", "")]),
         mk(true, "pipelined", vec![step("open", "ok", ""), step("stream", "ok_filt", ""), step("close", "", ""), step("open", "ok_sort", ""), step("query", "ok_filt", ""), step("close", "", ""), step("open", "ok_onepass", ""), step("close", "", ""), step("open", "ok_zip", ""), step("close", "", ""), step("open", "ok", ""), step("close", "", "")]),
@@ -680,6 +753,52 @@ fn scripted() -> Vec<CaseSpec> {
         }
     }
     res
+}
+
+/// a log with file transfers (the FileTransfer plugin's protocol: FLST, FLDA.., FLFI as verbose messages): transfer 0 complete
+/// (3 packages), transfer 1 incomplete (package 2 of 2 and FLFI missing), transfer 2 complete (1 package), ordinary logs around
+fn write_ft_log(path: &str) -> Vec<Vec<u8>> {
+    use adlt::dlt::{DltArg, DLT_TYLE_32BIT, DLT_TYPE_INFO_RAWD, DLT_TYPE_INFO_SINT, DLT_TYPE_INFO_STRG, DLT_TYPE_INFO_UINT};
+    use std::io::Write;
+    let u32t = DLT_TYPE_INFO_UINT | DLT_TYLE_32BIT as u32;
+    let i32t = DLT_TYPE_INFO_SINT | DLT_TYLE_32BIT as u32;
+    let mk = |noar: u8, args: &[(u32, &[u8])]| {
+        let v: Vec<DltArg> = args.iter().map(|a| DltArg { type_info: a.0, is_big_endian: false, payload_raw: a.1 }).collect();
+        adlt::dlt::DltMessage::get_testmsg_with_payload(false, noar, &adlt::utils::payload_from_args(&v))
+    };
+    let flst = |serial: u32, name: &str, size: u32, pkgs: u32| {
+        let n = format!("{}\0", name);
+        mk(8, &[(DLT_TYPE_INFO_STRG, b"FLST\0"), (u32t, &serial.to_le_bytes()), (DLT_TYPE_INFO_STRG, n.as_bytes()), (u32t, &size.to_le_bytes()),
+                (DLT_TYPE_INFO_STRG, b"2022-06-02 21:54:00\0"), (u32t, &pkgs.to_le_bytes()), (u32t, &512u32.to_le_bytes()), (DLT_TYPE_INFO_STRG, b"FLST\0")])
+    };
+    let flda = |serial: u32, pkg: i32, data: &[u8]| {
+        mk(5, &[(DLT_TYPE_INFO_STRG, b"FLDA\0"), (u32t, &serial.to_le_bytes()), (i32t, &pkg.to_le_bytes()), (DLT_TYPE_INFO_RAWD, data), (DLT_TYPE_INFO_STRG, b"FLDA\0")])
+    };
+    let flfi = |serial: u32| mk(3, &[(DLT_TYPE_INFO_STRG, b"FLFI\0"), (u32t, &serial.to_le_bytes()), (DLT_TYPE_INFO_STRG, b"FLFI\0")]);
+    let plain = |i: usize| {
+        let g = GenMsg { ecu: "ECU1".into(), apid: "APIA".into(), ctid: "CTIA".into(), t_ms: 0, mcnt: 0, text: format!("ordinary message {}", i) };
+        to_dlt(i, &g)
+    };
+    let a: Vec<u8> = (0..1200u32).map(|i| (i * 7 % 251) as u8).collect();
+    let c: Vec<u8> = b"the second complete transfer".to_vec();
+    let mut msgs = vec![plain(0), plain(1), flst(17, "first.bin", a.len() as u32, 3), flda(17, 1, &a[0..512]), plain(2), flda(17, 2, &a[512..1024]),
+                        flda(17, 3, &a[1024..]), flfi(17), plain(3), flst(18, "second_incomplete.bin", 1000, 2), flda(18, 1, &a[0..512]), plain(4),
+                        flst(19, "third.bin", c.len() as u32, 1), flda(19, 1, &c), flfi(19)];
+    for i in 5..40 {
+        msgs.push(plain(i));
+    }
+    let mut w = std::io::BufWriter::new(std::fs::File::create(path).expect("create ft log"));
+    for (i, m) in msgs.iter_mut().enumerate() {
+        m.index = i as u32;
+        m.ecu = char4("ECU1");
+        m.reception_time_us = BASE_US + 1_000_000 + i as u64 * 2000;
+        m.timestamp_dms = 10_000 + i as u32 * 20;
+        m.standard_header.htyp |= 0x10; // with timestamp
+        m.standard_header.mcnt = i as u8;
+        m.to_write(&mut w).expect("write ft log");
+    }
+    w.flush().unwrap();
+    vec![a, vec![], c]
 }
 
 /// > 512 Ki minimal messages (no extended header, no payload; 24 bytes each), one ECU, 1 ms apart
@@ -743,6 +862,11 @@ fn make_files(work: &str, seed: u64, n_small: usize, n_big: usize, n_huge: usize
         z.write_all(b"an archive without any dlt file\n").unwrap();
         z.finish().unwrap();
     }
+    let ft = format!("{}/filetransfer.dlt", dir);
+    let ft_data = write_ft_log(&ft);
+    let autosave_dir = format!("{}/saved", work);
+    let _ = std::fs::remove_dir_all(&autosave_dir);
+    std::fs::create_dir_all(&autosave_dir).unwrap();
     let huge = if n_huge > 0 {
         let p = format!("{}/huge.dlt", dir);
         write_huge(&p, n_huge);
@@ -750,7 +874,7 @@ fn make_files(work: &str, seed: u64, n_small: usize, n_big: usize, n_huge: usize
     } else {
         String::new()
     };
-    Files { small, big, huge, n_small: n_small as u64, n_big: n_big as u64, empty, fakezip, realzip, nodltzip, missing: format!("{}/does_not_exist.dlt", dir), dir }
+    Files { small, big, huge, n_small: n_small as u64, n_big: n_big as u64, empty, fakezip, realzip, nodltzip, ft, ft_data, autosave_dir, missing: format!("{}/does_not_exist.dlt", dir), dir }
 }
 
 fn main() {
@@ -791,7 +915,7 @@ fn main() {
     for k in 0..n_random {
         let pipelined = k % 2 == 1;
         let len = rng.range(20, long_max as u64) as usize;
-        cases.push(CaseSpec { src: "random", mode: if pipelined { "pipelined" } else { "awaited" }, big: rng.chance(1, 2), huge: false, numeric: false, steps: if k % 5 == 4 { random_onepass_history(&mut rng, std::cmp::min(len, 60)) } else { random_history(&mut rng, len, pipelined, k % 3 == 2) } });
+        cases.push(CaseSpec { src: "random", mode: if pipelined { "pipelined" } else { "awaited" }, big: rng.chance(1, 2), huge: false, numeric: false, steps: if k % 5 == 4 { random_onepass_history(&mut rng, std::cmp::min(len, 60)) } else if k % 7 == 6 { random_ft_history(&mut rng, std::cmp::min(len, 40)) } else { random_history(&mut rng, len, pipelined, k % 3 == 2) } });
     }
     for _ in 0..a.num("--random-numeric", 0) {
         let len = rng.range(4, 12) as usize;
